@@ -94,6 +94,21 @@ type RootCase struct {
 	EndsOK   bool // both ends at least Tol away from zero (what every caller guarantees)
 }
 
+// zeroLevel: where between its end values the function crosses zero, as a fraction of its range: anywhere inside,
+// exactly at an end (f(min) = 0 or f(max) = 0: still a bracket), or exactly in the middle (end values of equal
+// size: the secant point is the midpoint).
+func zeroLevel(t *rapid.T) float64 {
+	switch rapid.IntRange(0, 9).Draw(t, "zeroKind") {
+	case 0:
+		return 0
+	case 1:
+		return 1
+	case 2, 3:
+		return 0.5
+	}
+	return rapid.Float64Range(0.02, 0.98).Draw(t, "zero")
+}
+
 func genRoot(t *rapid.T) RootCase {
 	c := RootCase{}
 	lo := rapid.Float64Range(-100, 100).Draw(t, "min")
@@ -139,22 +154,31 @@ func genRoot(t *rapid.T) RootCase {
 			f.Ys[n-1], y = 1, 1
 		}
 		// scale to amplitude and shift so that a root is bracketed
-		z := rapid.Float64Range(0.02, 0.98).Draw(t, "zero")
+		z := zeroLevel(t)
 		for i := range f.Ys {
 			f.Ys[i] = (f.Ys[i]/y - z) * amp
 		}
 	case "pow":
 		f.P = rapid.Float64Range(0.3, 3).Draw(t, "p")
 		f.A = amp
-		f.B = amp * rapid.Float64Range(0.02, 0.98).Draw(t, "b")
+		f.B = amp * zeroLevel(t)
 	case "exp":
 		f.P = rapid.Float64Range(0.1, 6).Draw(t, "p")
 		f.A = amp / (math.Exp(f.P) - 1)
-		f.B = amp * rapid.Float64Range(0.02, 0.98).Draw(t, "b")
+		f.B = amp * zeroLevel(t)
 	case "wave":
 		f.B = amp
 		f.A = amp * rapid.Float64Range(0.5, 5).Draw(t, "a")
 		f.W = rapid.Float64Range(1, 30).Draw(t, "w")
+	}
+	if f.Kind == "pow" || f.Kind == "exp" {
+		// a zero placed exactly at an end must not become a missing bracket by rounding
+		for k := 0; k < 4 && f.Eval(f.Max) < 0; k++ {
+			f.B += f.Eval(f.Max)
+		}
+		for k := 0; k < 4 && f.Eval(f.Min) > 0; k++ {
+			f.B += f.Eval(f.Min)
+		}
 	}
 	c.F = f
 	c.EndsOK = math.Abs(f.Eval(f.Min)) >= c.Tol && math.Abs(f.Eval(f.Max)) >= c.Tol
@@ -167,8 +191,18 @@ func genRoot(t *rapid.T) RootCase {
 		}
 	}
 	c.Guess = f.Min + w*rapid.Float64Range(0, 1).Draw(t, "guess")
-	if rapid.IntRange(0, 3).Draw(t, "guessEnd") == 0 {
+	switch rapid.IntRange(0, 7).Draw(t, "guessEnd") {
+	case 0, 1:
 		c.Guess = rapid.SampledFrom([]float64{f.Min, f.Max}).Draw(t, "gend")
+	case 2:
+		// the first trial points themselves: the midpoint, the secant point
+		c.Guess = f.Max - (f.Max-f.Min)*0.5
+	case 3:
+		if a, b := f.Eval(f.Min), f.Eval(f.Max); b != a {
+			if g := f.Max - (f.Max-f.Min)*b/(b-a); g >= f.Min && g <= f.Max {
+				c.Guess = g
+			}
+		}
 	}
 	c.MaxIter = rapid.IntRange(0, 60).Draw(t, "iters")
 	c.Deriv = rapid.SampledFrom([]string{"none", "exact", "wrong", "zero"}).Draw(t, "deriv")
